@@ -125,6 +125,9 @@ func C06Fl2Lines() {
 	env := &EnvelopeDecl{Name: "e", Rows: zzIntPtr(rows), IsTarget: true, Columns: cols}
 	decl := &FileDecl{Envelopes: []*EnvelopeDecl{env}}
 	zz.Assume((&validateCtx{}).validateFileDecl(decl) == nil)
+	if zz.Param("FREEZE", 0) == 1 {
+		zz.Freeze(decl)
+	}
 	src := &zzChunkReader{data: f.input, failAt: -1, cuts: zzCuts(zz.Param("CUTS", 1), len(f.input))}
 	r := &reader{inputName: "t", r: bufio.NewReaderSize(src, 16)}
 	r.hr = flatfile.NewHierarchyReader(toFlatFileRecDecls(decl.Envelopes), r, nil)
